@@ -1067,6 +1067,9 @@ class Filterbank(ABC):
         str
             Name of output file.
         """
+        if nsub < 1 or self.header.nchans % nsub != 0:
+            msg = f"Number of sub-bands must divide nchans ({self.header.nchans}): {nsub}"
+            raise ValueError(msg)
         subfactor = self.header.nchans // nsub
         chan_delays = self.header.get_dmdelays(dm)
         # Channels that lead the reference (ascending band, negative DM) have
